@@ -328,3 +328,82 @@ def e_cli_password(k: int) -> bool:
                 ok = c.password == c.new_password
             tick('e_cli_password', [ci, cmd])
             return ok
+
+
+# --------------------------------------------------------------------------- key files written over whatever was at the path (C17_e)
+KF_KDF = [{'name': 'scrypt', 'n': 4, 'r': 1, 'p': 1}, {'name': 'scrypt', 'n': 1024, 'r': 2, 'p': 1}, {'name': 'blake2b'}]
+KF_PRE = ['absent', 'empty', 'short junk', 'long junk', 'previous key (longer kdf section)', 'previous key (same settings)']
+
+
+def keyfile_case(op, pre_i, kdf_i):
+    """init / add-key (shared, independent) with `key_output_path` naming a path in any previous state: the file then holds
+    exactly the new key, and a fresh process given the file's bytes (as -K does) unlocks with the new password."""
+    rt.determinism(31)
+    be = rt.MemBackend()
+    with world.scratch('c17f') as d:
+        path = d / 'keys' / 'my.key'
+        path.parent.mkdir()
+        repo = Repository(be, concurrent=2, cache_directory=None)
+        kdf = dict(KF_KDF[kdf_i])
+        pre = KF_PRE[pre_i]
+        first_path = path if op == 0 else d / 'keys' / 'first.key'
+
+        def prefill(target):
+            if pre == 'empty':
+                target.write_bytes(b'')
+            elif pre == 'short junk':
+                target.write_bytes(b'{}')
+            elif pre == 'long junk':
+                target.write_bytes(b'x' * 5000)
+            elif pre.startswith('previous key'):
+                other = Repository(rt.MemBackend(), concurrent=2, cache_directory=None)
+                big = {'name': 'scrypt', 'n': 1048576, 'r': 8, 'p': 16} if 'longer' in pre else kdf
+                with rt.silence():
+                    # (only the serialised form matters: built with the documented layout by a throw-away repository)
+                    try:
+                        rt.MiniLoop().run_until_complete(other.init(password=b'old', settings={'encryption': {'kdf': dict(rt.FAST_KDF)}, 'chunking': {'min_length': 4, 'max_length': 8}},
+                                                                   key_output_path=target))
+                    except Exception:
+                        target.write_bytes(b'{"kdf": 1}')
+                if 'longer' in pre:
+                    target.write_bytes(target.read_bytes() + b' ' * 64 + b'\n')      # a valid key file with trailing white space is longer than any new key
+        if op == 0:
+            prefill(path)
+        with rt.silence():
+            init = rt.MiniLoop().run_until_complete(repo.init(password=b'p0', settings=rt.fast_settings(True) | {'encryption': {'kdf': kdf}}, key_output_path=first_path))
+        if op == 0:
+            new_key, pw = init.key, b'p0'
+        else:
+            prefill(path)
+            issuer = Repository(be, concurrent=2, cache_directory=None)
+            rt.MiniLoop().run_until_complete(issuer.unlock(password=b'p0', key=first_path.read_bytes()))
+            with rt.silence():
+                res = rt.MiniLoop().run_until_complete(issuer.add_key(password=b'p-new', settings={'encryption': {'kdf': kdf}}, shared=(op == 1), key_output_path=path))
+            new_key, pw = res.new_key, b'p-new'
+        stored = path.read_bytes()
+        fresh = Repository(be, concurrent=2, cache_directory=None)
+        try:
+            rt.MiniLoop().run_until_complete(fresh.unlock(password=pw, key=stored))
+        except Exception as e:
+            return False, (f"{['init', 'add-key --shared', 'add-key'][op]} wrote its key to a path holding {pre!r}: a fresh process cannot unlock with the file "
+                           f'({type(e).__name__}: {str(e)[:80]}); file has {len(stored)} bytes, the key serialises to {len(repo.serialize(new_key))}')
+        if stored != repo.serialize(new_key):
+            return False, 'key file differs from the key the command returned'
+        others = sorted(p.name for p in path.parent.iterdir())
+        if others != sorted({path.name, first_path.name}):
+            return False, f'unexpected files next to the key: {others}'
+        return True, ''
+
+
+def e_keyfile(k: int) -> bool:
+    """
+    pre: 0 <= k < 3 * 6 * 3
+    post: _
+    """
+    op, pre_i, kdf_i = digits(k, [3, 6, 3])
+    with NoTracing():
+        ok, msg = keyfile_case(op, pre_i, kdf_i)
+        tick('e_keyfile', [op, pre_i, kdf_i])
+        if not ok:
+            _say(msg)
+        return ok
